@@ -18,6 +18,7 @@ EXPLANATION = (
     'Also decided (round 8): The retry budget is stored exactly as given (0 is a setting); PYRO_* environment settings are stored as converted, not through a truthiness fallback. '
     'Also decided (round 11): The proxy adopts a new connection only on the CONNECTOK branch of the handshake answer; every name read in client.py / protocol.py is bound somewhere (symbol tables). '
     "Also decided (round 10): The retry loop of _RemoteMethod only ever re-invokes Proxy._pyroInvoke (never a sender that consumes its input, like BatchProxy._pyroInvoke); a stream item is answered with what this call's next() produced (shared from C10). "
+    'Also decided (round 12): Sequence check, serializer check and decoding of the reply run inside the body of the try whose handler releases the connection (not in its else-clause or after it); a failed stream fetch never turns later fetches into an invented end of the stream (shared from C10). '
     "Not decided: execution counts under fault scripts, what the transport delivers."
 )
 
@@ -528,6 +529,9 @@ def run(ctx, R, tier):
     for o in R10.obs:
         if o.key == "C10-R3|_streamResponse|fresh-id":
             R.add("C03-R5", "_streamResponse|fresh-id", o.desc + " (an item request must never be answered from another call's stream)", o.ok, o.loc, o.detail)
+        elif o.key == "C10-R6|__next__|drops-proxy-on-exhaustion":
+            R.add("C03-R5", "__next__|ends-the-stream-only-on-the-server's-StopIteration", o.desc + " (a failed fetch raises its communication error; it never turns later fetches into a locally "
+                  "invented end of the stream)", o.ok, o.loc, o.detail)
         elif o.key == "C10-R1|get_next_stream_item|returns-only-what-next-produced":
             R.add("C03-R5", "get_next_stream_item|answers-with-this-call's-item", o.desc + " (an item request is answered with its own item, never with the reply to an earlier request)", o.ok, o.loc, o.detail)
 
